@@ -260,6 +260,9 @@ thread_local! {
 }
 
 static WATCHDOG_NOW: AtomicU64 = AtomicU64::new(0);
+/// set by the watchdog when the process has grown beyond its memory budget: no further cases are started (what was
+/// explored so far is reported; the evidence says that the run was cut short)
+pub static MEM_STOP: AtomicBool = AtomicBool::new(false);
 /// what each worker is running right now: (start, engine, case JSON); lets the watchdog save the case that hangs
 static CURRENT: Mutex<Vec<Option<(std::time::Instant, &'static str, Vec<u8>)>>> = Mutex::new(Vec::new());
 
@@ -345,7 +348,7 @@ fn drive_worker<E: Engine>(eng: &E, ctx: &Ctx, w: usize, cases: u64, stop: &Atom
     let first_fail_v: RefCell<Option<Violation>> = RefCell::new(None);
     let property = ctx.property.clone();
     let res = runner.run(&strat, |tapes| {
-        if first_fail.borrow().is_none() && stop.load(Ordering::Relaxed) {
+        if first_fail.borrow().is_none() && (stop.load(Ordering::Relaxed) || MEM_STOP.load(Ordering::Relaxed)) {
             return Ok(());
         }
         WATCHDOG_NOW.fetch_add(1, Ordering::Relaxed);
@@ -593,8 +596,17 @@ pub fn start_watchdog(secs: u64) {
         let mut last = WATCHDOG_NOW.load(Ordering::Relaxed);
         let mut idle = 0u64;
         loop {
-            std::thread::sleep(std::time::Duration::from_secs(5));
+            std::thread::sleep(std::time::Duration::from_secs(2));
             let now = WATCHDOG_NOW.load(Ordering::Relaxed);
+            // memory budget (cases that end in a contained panic of the code under test leak what they held, see sim.rs)
+            if !MEM_STOP.load(Ordering::Relaxed) {
+                let limit_gb: u64 = std::env::var("VERIF_MEM_LIMIT_GB").ok().and_then(|s| s.parse().ok()).unwrap_or(24);
+                let rss_pages: u64 = std::fs::read_to_string("/proc/self/statm").ok().and_then(|s| s.split_whitespace().nth(1).and_then(|x| x.parse().ok())).unwrap_or(0);
+                if rss_pages * 4096 > limit_gb << 30 {
+                    eprintln!("memory guard: resident set above {} GiB — no further cases are started", limit_gb);
+                    MEM_STOP.store(true, Ordering::Relaxed);
+                }
+            }
             // a single case running far beyond any sensible budget: save it and give up (inconclusive)
             let stuck = {
                 let c = CURRENT.lock().unwrap_or_else(|e| e.into_inner());
@@ -610,7 +622,7 @@ pub fn start_watchdog(secs: u64) {
                 unsafe { libc_exit(2) }
             }
             if now == last {
-                idle += 5;
+                idle += 2;
                 if idle >= secs {
                     eprintln!("watchdog: no case finished for {}s — inconclusive (exit 2)", secs);
                     unsafe { libc_exit(2) }
